@@ -100,7 +100,7 @@ fn one_round(sink: &mut Sink, id: &str, r: &mut Rng, n_ops: usize) {
 pub fn run(args: &Args, sink: &mut Sink) {
     let thorough = args.tier == "thorough";
     let mut rng = Rng(args.seed ^ 0x7C0C);
-    let rounds = if thorough { 6000 } else { 500 };
+    let rounds = if thorough { 40000 } else { 3000 };
     for k in 0..rounds {
         let mut r = rng.fork();
         let n_ops = if k % 10 == 0 { 5000 } else { 200 + r.below(600) };
